@@ -14,6 +14,7 @@ import (
 	"math/rand"
 	"os"
 	"strconv"
+	"sync/atomic"
 	"testing"
 )
 
@@ -363,6 +364,9 @@ func TestVerifPoolRandom(t *testing.T) {
 		var job vRandJob
 		if e := json.Unmarshal(line, &job); e != nil {
 			t.Fatalf("bad job: %v", e)
+		}
+		if atomic.LoadInt32(&vAnomalies) >= 25 {
+			continue // see vAnomalies: enough HANG / SPIN / TIMEOUT outcomes recorded
 		}
 		vRunRandom(job, func(ev vEvent) {
 			ne++
